@@ -73,6 +73,7 @@ type c13run struct {
 	tgt             target
 	buf             *redact.ManualBuffer
 	held            []heldString
+	heldB           []heldBytes
 	err             error
 	atOpenOrPending int
 }
@@ -92,6 +93,11 @@ func newC13Run(mb bool, grow int) *c13run {
 		r.buf.Grow(grow)
 	}
 	return r
+}
+
+type heldBytes struct {
+	at      string
+	b, copy []byte
 }
 
 func (r *c13run) hold(at string, s string) {
@@ -119,6 +125,14 @@ func (r *c13run) run(phase string, ops []*Op) {
 				r.hold(at, v)
 			case redact.RedactableString:
 				r.hold(at, string(v))
+			case redact.RedactableBytes:
+				// the slice itself is kept - for TakeRedactableBytes only, after
+				// which the buffer has handed its array over. (What the accessor
+				// RedactableBytes() returns shares the live array when nothing had
+				// to be appended, like bytes.Buffer.Bytes(); C13 speaks of strings.)
+				if op.K == "TakeB" {
+					r.heldB = append(r.heldB, heldBytes{at: at, b: v, copy: append([]byte(nil), v...)})
+				}
 			case int:
 				if op.K == "Len" {
 					want := len(r.buf.VerifClone().RedactableString())
@@ -148,6 +162,11 @@ func (r *c13run) checkHeld(when string) error {
 	for _, h := range r.held {
 		if h.s != h.copy {
 			return fmt.Errorf("string obtained at %s was %s and is %s %s", h.at, qs(h.copy), qs(h.s), when)
+		}
+	}
+	for _, h := range r.heldB {
+		if !bytes.Equal(h.b, h.copy) {
+			return fmt.Errorf("bytes obtained at %s were %s and are %s %s", h.at, q(h.copy), q(h.b), when)
 		}
 	}
 	return nil
